@@ -2418,6 +2418,72 @@ def translate_transform(src_dir: str) -> str:
         METHODS, CFG_ATTRS, STATE_ATTRS, ORACLES, CFG_TYPE, LOCAL_ELT, EXTRA_PARAMS, MONAD, EXPR_HOOKS, STMT_SKIP, RECEIVERS, STMT_HOOKS = saved
     return ''.join(out)
 
+# ---- WaveguideWriter.pgm / NasuWriter.pgm / MarkerWriter.pgm (C08): which file is compiled, and that an empty writer compiles none
+_WN_STEM = "Attribute(value=Call(func=Attribute(value=Name(id='pathlib'), attr='Path'), args=[Attribute(value=Name(id='self'), attr='filename')], keywords=[]), attr='stem')"
+_WN_COPY = "Call(func=Name(id='dict'), args=[Call(func=Attribute(value=Attribute(value=Name(id='self'), attr='_param'), attr='copy'), args=[], keywords=[])], keywords=[])"
+
+
+def _h_wn(tr, e, env):
+    d = dump(e)
+    if d == "Attribute(value=Name(id='self'), attr='obj_list')":
+        return [], '(wn_has_objects c)'
+    if d == _WN_STEM:
+        return [], '(path_stem (wn_filename c))'
+    return None
+
+
+def _s_wn(tr, s, rest, env, tail):
+    d = dump(s)
+    if isinstance(s, ast.Assign) and len(s.targets) == 1 and isinstance(s.targets[0], ast.Name) and (dump(s.value) == _WN_COPY or
+            (isinstance(s.value, ast.Constant) and isinstance(s.value.value, float) and s.targets[0].id.endswith('_fab_time'))):
+        return tr.T(rest, env, tail)          # the parameter dictionary is copied; the time estimate is C12's subject
+    if (isinstance(s, ast.Assign) and len(s.targets) == 1 and isinstance(s.targets[0], ast.Subscript) and isinstance(s.targets[0].value, ast.Name)
+            and isinstance(s.targets[0].slice, ast.Constant)):
+        if s.targets[0].slice.value != 'filename':
+            raise Unsupported(f'compiler parameter {s.targets[0].slice.value!r} overridden')
+        eff, t = tr.E(s.value, env)
+        return tr.wrap(eff, f'let {cname(s.targets[0].value.id)}__file := {t} in {tr.T(rest, env, tail)}')
+    if isinstance(s, ast.With) and len(s.items) == 1:
+        m = re.fullmatch(r"Call\(func=Name\(id='PGMCompiler'\), args=\[\], keywords=\[keyword\(value=Name\(id='(\w+)'\)\)\]\)", dump(s.items[0].context_expr))
+        if m and dump(s.items[0].optional_vars) == "Name(id='G')":
+            for n in ast.walk(ast.Module(body=s.body, type_ignores=[])):
+                if isinstance(n, ast.Call) and isinstance(n.func, ast.Name) and n.func.id == 'PGMCompiler':
+                    raise Unsupported('a second compiler inside the with block')
+            return f'wemit (WBegin {cname(m.group(1))}__file) ;;; wemit WEnd ;;; {tr.T(rest, env, tail)}'      # its body: SrcWr.v
+        raise Unsupported('with statement other than `with PGMCompiler(**param) as G:`')
+    if isinstance(s, ast.Delete) and d == "Delete(targets=[Name(id='G', ctx=Del())])":
+        return tr.T(rest, env, tail)
+    if isinstance(s, ast.If) and dump(s.test) == "Name(id='verbose')" and not s.orelse:
+        if any(isinstance(n, ast.Call) and isinstance(n.func, ast.Name) and n.func.id in ('PGMCompiler', 'open') for n in ast.walk(s)):
+            raise Unsupported('a file written under `if verbose`')
+        return tr.T(rest, env, tail)          # prints and the fabrication-time attribute
+    if d == "Expr(value=Call(func=Attribute(value=Attribute(value=Name(id='self'), attr='_instructions'), attr='clear'), args=[], keywords=[]))":
+        return tr.T(rest, env, tail)
+    if d == "Assign(targets=[Attribute(value=Name(id='self'), attr='_total_dwell_time')], value=Constant(value=0.0))" or re.fullmatch(
+            r"Assign\(targets=\[Attribute\(value=Name\(id='self'\), attr='_fabtime'\)\], value=Name\(id='_\w+_fab_time'\)\)", d):
+        return tr.T(rest, env, tail)          # the writer's own (unused) compiler state; the time estimate is C12's subject
+    return None
+
+
+def translate_writer_names(src_dir: str) -> str:
+    global METHODS, CFG_ATTRS, STATE_ATTRS, ORACLES, CFG_TYPE, LOCAL_ELT, EXTRA_PARAMS, MONAD, EXPR_HOOKS, STMT_SKIP, RECEIVERS, STMT_HOOKS
+    saved = (METHODS, CFG_ATTRS, STATE_ATTRS, ORACLES, CFG_TYPE, LOCAL_ELT, EXTRA_PARAMS, MONAD, EXPR_HOOKS, STMT_SKIP, RECEIVERS, STMT_HOOKS)
+    out = [PURE_PREAMBLE % ('writer.py', ' Persist.Paths', 'WnState')]
+    try:
+        mod = ast.parse(pathlib.Path(src_dir, 'writer.py').read_text())
+        for cls_name, tag in (('WaveguideWriter', 'wg'), ('NasuWriter', 'nwg'), ('MarkerWriter', 'mk')):
+            cls = [n for n in mod.body if isinstance(n, ast.ClassDef) and n.name == cls_name]
+            if len(cls) != 1:
+                raise Unsupported(f'class {cls_name} not found in writer.py')
+            METHODS = {'pgm': ('method', [('verbose', 'bool')], 'unit')}
+            CFG_ATTRS, STATE_ATTRS, ORACLES = set(), {}, {}
+            CFG_TYPE, LOCAL_ELT, EXTRA_PARAMS, MONAD = 'wn_cfg', {}, '', 'MW'
+            EXPR_HOOKS, STMT_SKIP, RECEIVERS, STMT_HOOKS = [_h_wn], [], {'self'}, [_s_wn]
+            out.append(Tr(cls[0]).method('pgm').replace('Definition src_pgm ', f'Definition src_pgm_{tag} ', 1) + '\n')
+    finally:
+        METHODS, CFG_ATTRS, STATE_ATTRS, ORACLES, CFG_TYPE, LOCAL_ELT, EXTRA_PARAMS, MONAD, EXPR_HOOKS, STMT_SKIP, RECEIVERS, STMT_HOOKS = saved
+    return ''.join(out)
+
 
 def main(argv):
     """py2coq.py <dir of femto sources> <output dir> <group>...   groups: pgm (PgmSrc.v), SrcLp.v, SrcNw.v, SrcTc.v, SrcTr.v"""
@@ -2445,6 +2511,8 @@ def main(argv):
                 name, text = g, translate_laserpath(str(src_dir))
             elif g == 'SrcTp.v':
                 name, text = g, translate_transform(str(src_dir))
+            elif g == 'SrcWn.v':
+                name, text = g, translate_writer_names(str(src_dir))
             elif g == 'SrcSs.v':
                 name, text = g, translate_sheet(str(src_dir))
             elif g == 'SrcTn.v':
